@@ -48,17 +48,33 @@ func (c *hCache) CheckAttestedRetirementReport(_ types.ConfigDigest, b []byte) (
 	return cp, nil
 }
 
-type hShouldRetire struct{ v bool }
+type hShouldRetire struct {
+	v   bool
+	err error
+}
 
-func (s *hShouldRetire) ShouldRetire(types.ConfigDigest) (bool, error) { return s.v, nil }
+func (s *hShouldRetire) ShouldRetire(types.ConfigDigest) (bool, error) { return s.v, s.err }
 
 type hDefCache struct{ defs llotypes.ChannelDefinitions }
 
 func (d *hDefCache) Definitions() llotypes.ChannelDefinitions { return d.defs }
 
-type hDataSource struct{ vals llo.StreamValues }
+type hDataSource struct {
+	vals   llo.StreamValues
+	err    error
+	called bool
+	asked  []uint32 // the keys the plugin pre-populated
+}
 
 func (d *hDataSource) Observe(_ context.Context, sv llo.StreamValues, _ llo.DSOpts) error {
+	d.called = true
+	d.asked = d.asked[:0]
+	for id := range sv {
+		d.asked = append(d.asked, id)
+	}
+	if d.err != nil {
+		return d.err
+	}
 	for id := range sv {
 		if v, ok := d.vals[id]; ok {
 			sv[id] = v
